@@ -22,7 +22,7 @@ func checkC06(c *Ctx) {
 		"dominating tests prove nil on a branch guarded by another error being non-nil (the shape of the swallowed redeclaration error); (C06.const) every binding site Declare*Element in pkg/exec is classified by the syntax field its " +
 		"name flows from and uses the const/non-const variant the manual prescribes (恒为, 输入/parameters, 得到 both forms, 如何/定义 names, 此, imports const; 令/设为 and 遍历 slots assignable); (C06.globals) all three VM.Declare* test " +
 		"vm.globals before touching the scope, lookups consult globals first, nothing writes vm.globals; (C06.intact) Scope.SetValue stores only on the false edge of isConst, the innermost symbol with the name decides " +
-		"(no further search after a match), and declareValue appends only after the same-depth duplicate test. Also: every declaration path stores the isConst flag it was declared with (no recycled slot keeps an old flag); guards may live in helpers (summaries of helpers whose passing returns lie behind the test). NOT decided: visibility for arbitrary nestings (Scope depth arithmetic at run time)."
+		"(no further search after a match), and declareValue appends only after the same-depth duplicate test. Also: every declaration path stores the isConst flag it was declared with (no recycled slot keeps an old flag); guards may live in helpers (summaries of helpers whose passing returns lie behind the test). (C06.visible) in every Scope method that does not change localCount, each element of locals / values is read at an index the own bounds prover shows to be below localCount (helper results summarised), so symbols of ended blocks cannot be found. NOT decided: visibility for arbitrary nestings (Scope depth arithmetic at run time)."
 	R.Assumptions = []string{"Scope.BeginScope/EndScope maintain currentDepth as a counter (pkg/runtime/scope.go, covered by baseline tests)"}
 	u := c.Core()
 	u.buildSSA()
